@@ -666,13 +666,29 @@ def _freeze(d):
     return out
 
 
+_TWIN = {}          # per worker process: the twin world does not depend on the route
+
+
+def _twin_world(case):
+    """Expected observations: the history on never-saved objects.  Deterministic function of
+    (class, history, whether the directory decoy exists), so it is computed once for the
+    routes of one history (the cases of one history are consecutive)."""
+    key = repr((case["cls"], case["pre"], case["touch"], case["mid"], case["rd"],
+                case["route"] == "dir"))
+    if key not in _TWIN:
+        if len(_TWIN) > 8:
+            _TWIN.clear()
+        _TWIN[key] = _run_world(case, False, None)
+    return _TWIN[key]
+
+
 def eval_h(case):
     sig, ds, dr = _basis_signature(case)
     cls = case["cls"]
     viol = []
     tmp = tempfile.mkdtemp(prefix="c18h_")
     try:
-        st0, exp, _ = _run_world(case, False, tmp)
+        st0, exp, _ = _twin_world(case)
         if st0 != "ok":
             # the history itself cannot be executed on objects that were never saved: not a
             # statement about saving (C04/C05 own context transparency); counted, excluded
